@@ -28,7 +28,10 @@ func (v *Vue) evalTemplate(ctx VueContext, nodes []*html.Node, componentData map
 
 		// Check for include attribute - handle inclusion first
 		if helpers.HasAttr(node, "include") {
-			vars, err := v.evalAttributes(ctx, node)
+			// Evaluate the tag's attributes on a private copy: the tag itself may be evaluated again
+			// (supplied slot content is evaluated at every use) and must then still read as written,
+			// not as the values substituted the first time.
+			vars, err := v.evalAttributes(ctx, helpers.ShallowCloneWithAttrs(node))
 			if err != nil {
 				return nil, err
 			}
